@@ -9,6 +9,8 @@ import (
 	"context"
 	"crypto/ed25519"
 	"fmt"
+	"io"
+	"log"
 	"crypto/tls"
 	"net"
 	"os"
@@ -21,6 +23,7 @@ import (
 	"time"
 
 	"github.com/gorilla/websocket"
+	"google.golang.org/protobuf/proto"
 	"github.com/smartcontractkit/wsrpc/internal/message"
 	"github.com/smartcontractkit/wsrpc/internal/verifrt"
 	"github.com/smartcontractkit/wsrpc/peer"
@@ -480,6 +483,91 @@ func vC10Scenario(name string, seed uint64) string {
 			return "call-hangs-across-stop"
 		}
 		return w.aftermath(nil, took)
+	case "replies-queued-behind-a-stalled-write-at-stop":
+		// a peer which does not read sends two requests with large replies: the first reply stalls in the socket write, the
+		// second waits for the write pump. Stop returns within its bound and neither reply's goroutine outlives it
+		w := vC10Setup(r, WithHTTPReadTimeout(5*time.Second, time.Second))
+		a, err := vRawDial(w.addr, w.keys[0], w.skey.Pub)
+		if err != nil {
+			return "setup"
+		}
+		defer a.Close()
+		vWaitUntil(2*time.Second, func() bool { return w.s.OpenConnections() == 1 })
+		for i := 0; i < 2; i++ {
+			app, _ := proto.Marshal(vAppMsg(fmt.Sprint("q", i), make([]byte, 8<<20), ""))
+			f := vFrame(&message.Message{Exchange: &message.Message_Request{Request: &message.Request{Method: "Echo", CallId: fmt.Sprintf("00000000-0000-4000-8000-0000000c10a%d", i), Payload: app}}})
+			if err := a.WriteMessage(websocket.BinaryMessage, f); err != nil {
+				return "setup"
+			}
+		}
+		if !vWaitUntil(5*time.Second, func() bool { return len(w.impl.peek()) >= 2 }) {
+			return "setup"
+		}
+		time.Sleep(300 * time.Millisecond) // the first reply is in the socket write, the second is waiting for the pump
+		// (the bound here: the write timeout of 1 s, then up to 5 s which crypto/tls allows its closing alert on a socket
+		// which is full, then the slack of the other scenarios)
+		start := time.Now()
+		if !vStop(w.s, 12*time.Second) {
+			return "stop-hangs/" + strings.Join(vParked(), ",")
+		}
+		if took := time.Since(start); took > 9*time.Second {
+			return fmt.Sprintf("stop-exceeds-bound/%v", took)
+		}
+		time.Sleep(100 * time.Millisecond)
+		return w.aftermath(nil, 0)
+	case "write-times-out-while-the-peer-keeps-sending":
+		// peers which stop reading but keep sending: the server's write times out and its write pump leaves while the
+		// read pump has frames of the peer in hand; the whole session must be gone then, and again when Stop has returned
+		w := vC10Setup(r, WithHTTPReadTimeout(time.Second, 60*time.Millisecond))
+		log.SetOutput(io.Discard) // (every frame of the flood is reported in the log)
+		for k := 0; k < 3; k++ {
+			c, err := vRawDial(w.addr, w.keys[k], w.skey.Pub)
+			if err != nil {
+				return "setup"
+			}
+			defer c.Close()
+			vWaitUntil(2*time.Second, func() bool { return w.s.OpenConnections() == 1 })
+			flood := make(chan struct{})
+			go func() {
+				defer close(flood)
+				f := vFrame(&message.Message{Exchange: &message.Message_Response{Response: &message.Response{CallId: "00000000-0000-4000-8000-00000000f100"}}})
+				for {
+					if err := c.WriteMessage(websocket.BinaryMessage, f); err != nil {
+						return
+					}
+				}
+			}()
+			big := vAppMsg("x", make([]byte, 4<<20), "")
+			for i := 0; i < 12 && w.s.OpenConnections() == 1; i++ {
+				ctx, cn := context.WithTimeout(context.Background(), 150*time.Millisecond)
+				_ = w.s.Invoke(peer.NewCallContext(ctx, w.keys[k].Static()), "Echo", big, &message.Response{})
+				cn()
+			}
+			// (a write which timed out leaves crypto/tls willing to send its closing alert, for which it allows 5 s on a full socket)
+			if !vWaitUntil(8*time.Second, func() bool { return w.s.OpenConnections() == 0 }) {
+				return "gate-script-infeasible/write-did-not-time-out"
+			}
+			select {
+			case <-flood:
+			case <-time.After(3 * time.Second):
+				return "session-socket-left-open-after-its-write-pump-ended"
+			}
+		}
+		time.Sleep(100 * time.Millisecond)
+		var left []string
+		for _, l := range vServerLeft() { // the server is still running: only what belongs to a session counts here
+			if strings.Contains(l, "WebsocketServer") || strings.Contains(l, "handleRead") || strings.Contains(l, "wshandler") {
+				left = append(left, l)
+			}
+		}
+		if len(left) > 0 {
+			return "goroutines-left-after-session-ended/" + strings.Join(left, ",")
+		}
+		start := time.Now()
+		if !vStop(w.s, 6*time.Second) {
+			return "stop-hangs/" + strings.Join(vParked(), ",")
+		}
+		return w.aftermath(nil, time.Since(start))
 	case "write-timed-out-before-stop":
 		// a peer which stops reading: the server's write times out and its write pump leaves; the
 		// session must be gone completely (socket, read pump) when Stop has returned
@@ -625,7 +713,7 @@ func vC10Scenario(name string, seed uint64) string {
 	return "unknown-scenario"
 }
 
-var vC10Names = []string{"open-sessions", "idle-longer-than-write-timeout", "calls-both-directions", "handshakes-in-progress", "concurrent-admin", "write-timed-out-before-stop", "simultaneous-stops", "rejected-handshakes-then-stop", "peers-still-connecting-at-stop", "handler-still-running-at-stop", "handshake-completes-while-stop-waits"}
+var vC10Names = []string{"open-sessions", "idle-longer-than-write-timeout", "calls-both-directions", "handshakes-in-progress", "concurrent-admin", "write-timed-out-before-stop", "simultaneous-stops", "rejected-handshakes-then-stop", "peers-still-connecting-at-stop", "handler-still-running-at-stop", "handshake-completes-while-stop-waits", "replies-queued-behind-a-stalled-write-at-stop", "write-times-out-while-the-peer-keeps-sending"}
 
 func TestVerifC10Child(t *testing.T) {
 	spec := vChildSpec()
